@@ -364,6 +364,15 @@ func c18RoundTrip(c *engine.Case, pkg *appPkg, uplink bool, cid byte, v appPaylo
 		c.Fail(class+"/round-trip-differs", fmt.Sprintf("%s encodes to %x which decodes to %s", want, enc, got), nil)
 		return
 	}
+	// the same value with every byte-slice field held as a window into a larger buffer
+	// (spare capacity, other bytes behind it): nothing about the encoding may change
+	if respliceBytes(reflect.ValueOf(fresh)) {
+		enc2, err2 := fresh.MarshalBinary()
+		if err2 != nil || !bytes.Equal(enc2, enc) || fresh.Size() != len(enc) {
+			c.Fail(class+"/encoding-depends-on-slice-capacity", fmt.Sprintf("%s: with its byte slices held as windows into larger buffers it encodes to %x (err %v, Size()=%d); with exact slices to %x", deepPrint(v), enc2, err2, fresh.Size(), enc), nil)
+			return
+		}
+	}
 	// through the command framing
 	cmd := appCmd{CID: cid, Payload: v}
 	b, err := pkg.marshal([]appCmd{cmd})
@@ -381,6 +390,38 @@ func c18RoundTrip(c *engine.Case, pkg *appPkg, uplink bool, cid byte, v appPaylo
 			return map[string]interface{}{"part": c.Part, "value": deepPrint(v), "bytes": fmt.Sprintf("%x", enc)}
 		})
 	}
+}
+
+// respliceBytes replaces every []byte reachable through exported fields by an
+// equal slice that is a window into a larger buffer; it reports whether there was one.
+func respliceBytes(rv reflect.Value) bool {
+	found := false
+	switch rv.Kind() {
+	case reflect.Ptr, reflect.Interface:
+		if !rv.IsNil() {
+			return respliceBytes(rv.Elem())
+		}
+	case reflect.Struct:
+		for i := 0; i < rv.NumField(); i++ {
+			if rv.Type().Field(i).PkgPath == "" && respliceBytes(rv.Field(i)) {
+				found = true
+			}
+		}
+	case reflect.Slice:
+		if rv.Type().Elem().Kind() == reflect.Uint8 && rv.CanSet() && !rv.IsNil() {
+			n := rv.Len()
+			arena := bytes.Repeat([]byte{0xEE}, n+24)
+			copy(arena[4:], rv.Bytes())
+			rv.SetBytes(arena[4 : 4+n : n+24])
+			return true
+		}
+		for i := 0; i < rv.Len(); i++ {
+			if respliceBytes(rv.Index(i)) {
+				found = true
+			}
+		}
+	}
+	return found
 }
 
 func u32p(v uint32) *uint32 { return &v }
